@@ -652,8 +652,18 @@ int32_t pstm_read_radix(psPool_t *pool, pstm_int *a,
          */
         if (y < radix)
         {
-            pstm_mul_d(a, (pstm_digit) radix, a);
-            pstm_add_d(pool, a, (pstm_digit) y, a);
+            int32_t res;
+
+            /* Both can fail for lack of memory: going on would leave a
+               wrong number (e.g. a wrong curve order) that looks fine */
+            if ((res = pstm_mul_d(a, (pstm_digit) radix, a)) != PSTM_OKAY)
+            {
+                return res;
+            }
+            if ((res = pstm_add_d(pool, a, (pstm_digit) y, a)) != PSTM_OKAY)
+            {
+                return res;
+            }
         }
         else
         {
